@@ -25,15 +25,16 @@ const (
 	tByte
 	tBool
 	tUntyped // untyped integer / rune constant
+	tBuilder // a local strings.Builder, used as a byte accumulator through its methods only
 )
 
 func (t typ) String() string {
-	return [...]string{"?", "string", "[]byte", "int", "byte", "bool", "untyped constant"}[t]
+	return [...]string{"?", "string", "[]byte", "int", "byte", "bool", "untyped constant", "strings.Builder"}[t]
 }
 
 func (t typ) coq() string {
 	switch t {
-	case tString, tBytes:
+	case tString, tBytes, tBuilder:
 		return "list N"
 	case tInt:
 		return "Z"
@@ -328,6 +329,9 @@ func (t *tr) ident(x *ast.Ident, e *env) val {
 		if v.isConst && v.t == tUntyped {
 			return val{t: tUntyped, c: v.c}
 		}
+		if v.t == tBuilder {
+			t.fail(x, "the strings.Builder %s is used other than through WriteByte / WriteString / Write / Reset / String / Len", x.Name)
+		}
 		return val{term: v.coq, t: v.t}
 	}
 	switch x.Name {
@@ -561,6 +565,23 @@ func (t *tr) pkgOf(x ast.Expr, e *env) (string, string, bool) {
 	return p, sel.Sel.Name, true
 }
 
+// builderOf resolves `b.Method` when b is a local strings.Builder
+func (t *tr) builderOf(x ast.Expr, e *env) (*varInfo, string, bool) {
+	sel, ok := x.(*ast.SelectorExpr)
+	if !ok {
+		return nil, "", false
+	}
+	id, ok := sel.X.(*ast.Ident)
+	if !ok {
+		return nil, "", false
+	}
+	v := e.lookup(id.Name)
+	if v == nil || v.t != tBuilder {
+		return nil, "", false
+	}
+	return v, sel.Sel.Name, true
+}
+
 func (t *tr) args(x *ast.CallExpr, e *env, want ...typ) ([]val, []bind) {
 	if len(x.Args) != len(want) {
 		t.fail(x, "call with %d arguments where the supported form has %d", len(x.Args), len(want))
@@ -692,6 +713,17 @@ func (t *tr) call(x *ast.CallExpr, e *env) val {
 		}
 		t.fail(x, "call of %s is outside the translatable subset", id.Name)
 	}
+	if bv, name, ok := t.builderOf(x.Fun, e); ok {
+		switch name {
+		case "String":
+			t.args(x, e)
+			return val{term: bv.coq, t: tString}
+		case "Len":
+			t.args(x, e)
+			return val{term: "(GoRt.len " + bv.coq + ")", t: tInt}
+		}
+		t.fail(x, "strings.Builder method %s is outside the translatable subset as an expression", name)
+	}
 	if pkg, name, ok := t.pkgOf(x.Fun, e); ok {
 		key := pkg + "." + name
 		switch key {
@@ -737,13 +769,15 @@ func (t *tr) call(x *ast.CallExpr, e *env) val {
 				t.note("filepath.Clean = GoPath.clean: POSIX (separator '/', no volume names)")
 			}
 			return val{binds: bs, term: "(GoPath.clean " + vs[0].term + ")", t: tString}
-		case "path/filepath.Join":
+		case "path/filepath.Join", "path.Join":
 			if len(x.Args) != 2 {
-				t.fail(x, "filepath.Join with %d arguments (the modelled form has two)", len(x.Args))
+				t.fail(x, "%s.Join with %d arguments (the modelled form has two)", pkg, len(x.Args))
 			}
 			vs, bs := t.args(x, e, tString, tString)
 			t.needGoPath = true
-			t.note("filepath.Join = GoPath.join: POSIX (separator '/', no volume names)")
+			if pkg == "path/filepath" {
+				t.note("filepath.Join = GoPath.join: POSIX (separator '/', no volume names)")
+			}
 			return val{binds: bs, term: fmt.Sprintf("(GoPath.join %s %s)", vs[0].term, vs[1].term), t: tString}
 		case "path/filepath.FromSlash", "path/filepath.ToSlash":
 			vs, bs := t.args(x, e, tString)
@@ -791,8 +825,11 @@ func (t *tr) typeOf(x ast.Expr, e *env) typ {
 		}
 		t.fail(x, "array/slice type is outside the translatable subset (only []byte)")
 	case *ast.SelectorExpr:
-		if id, ok := x.X.(*ast.Ident); ok {
+		if id, ok := x.X.(*ast.Ident); ok && (e == nil || e.lookup(id.Name) == nil) {
 			if p, ok := t.imports[id.Name]; ok {
+				if p == "strings" && x.Sel.Name == "Builder" {
+					return tBuilder
+				}
 				if ty, ok := namedTypes[[2]string{p, x.Sel.Name}]; ok {
 					t.note(fmt.Sprintf("%s.%s is taken as its underlying type %s", p, x.Sel.Name, ty))
 					return ty
@@ -816,7 +853,7 @@ type ctx struct {
 
 func zeroOf(ty typ) string {
 	switch ty {
-	case tString, tBytes:
+	case tString, tBytes, tBuilder:
 		return "(@nil N)"
 	case tInt:
 		return "0%Z"
@@ -878,6 +915,37 @@ func (t *tr) stmts(list []ast.Stmt, e *env, cx *ctx, k func(e *env) string) stri
 		return t.switchStmt(s, e, cx, rest)
 	case *ast.ForStmt:
 		return t.forStmt(s, e, cx, rest)
+	case *ast.ExprStmt:
+		// b.WriteByte(c), b.WriteString(x), b.Write(p), b.Reset() on a local strings.Builder: the accumulator grows
+		call, ok := s.X.(*ast.CallExpr)
+		if !ok {
+			t.fail(s, "expression statement is outside the translatable subset")
+		}
+		bv, name, ok := t.builderOf(call.Fun, e)
+		if !ok {
+			t.fail(s, "expression statement is outside the translatable subset (only the Write methods of a local strings.Builder)")
+		}
+		var bs []bind
+		var term string
+		switch name {
+		case "WriteByte":
+			vs, b := t.args(call, e, tByte)
+			bs, term = b, fmt.Sprintf("(%s ++ [%s])", bv.coq, vs[0].term)
+		case "WriteString":
+			vs, b := t.args(call, e, tString)
+			bs, term = b, fmt.Sprintf("(%s ++ %s)", bv.coq, vs[0].term)
+		case "Write":
+			vs, b := t.args(call, e, tBytes)
+			bs, term = b, fmt.Sprintf("(%s ++ %s)", bv.coq, vs[0].term)
+		case "Reset":
+			t.args(call, e)
+			term = "(@nil N)"
+		default:
+			t.fail(s, "strings.Builder method %s is outside the translatable subset", name)
+		}
+		id := call.Fun.(*ast.SelectorExpr).X.(*ast.Ident)
+		nm := t.bindVar(e, id.Name, tBuilder, false)
+		return wrapBinds(bs, letIn(nm, term, rest(e)))
 	case *ast.BranchStmt:
 		if s.Tok == token.CONTINUE && s.Label == nil && cx.inLoop {
 			return cx.loopNext(e)
@@ -1368,6 +1436,12 @@ func (t *tr) assignedOuter(body *ast.BlockStmt, e *env, iName, sName string) []s
 			}
 		case *ast.IncDecStmt:
 			target(s.X, false)
+		case *ast.ExprStmt:
+			if call, ok := s.X.(*ast.CallExpr); ok {
+				if sel, ok := call.Fun.(*ast.SelectorExpr); ok {
+					target(sel.X, false)
+				}
+			}
 		case *ast.DeclStmt:
 			if gd, ok := s.Decl.(*ast.GenDecl); ok {
 				for _, sp := range gd.Specs {
@@ -1428,6 +1502,9 @@ func (t *tr) signature(fd *ast.FuncDecl) *sig {
 			t.fail(f, "variadic parameter")
 		}
 		ty := t.typeOf(f.Type, nil)
+		if ty == tBuilder {
+			t.fail(f, "a strings.Builder parameter is outside the translatable subset")
+		}
 		if len(f.Names) == 0 {
 			t.fail(f, "unnamed parameter")
 		}
@@ -1440,6 +1517,9 @@ func (t *tr) signature(fd *ast.FuncDecl) *sig {
 		t.fail(fd, "%s: exactly one unnamed result is supported", fd.Name.Name)
 	}
 	sg.result = t.typeOf(fd.Type.Results.List[0].Type, nil)
+	if sg.result == tBuilder {
+		t.fail(fd, "a strings.Builder result is outside the translatable subset")
+	}
 	return sg
 }
 
